@@ -147,6 +147,12 @@ def cmp_prove(prop, case, model, mat, F, variant, final):
     r = mat.call(ex["op"], inp)
     if not final:
         return True
+    if case["impl"].get("expect_accept") is False:
+        # a cheating holder running the model prover: the proof must NOT be accepted
+        if verdict(r or {}) == "accept":
+            F.oracle_failure(case["impl"].get("oracle", "forgery_rejected"), "%s: %s - ACCEPTED by the real verifier" %
+                             (case["id"], case["impl"].get("what", "a proof the model prover computed for a cheating holder")), case, variant)
+        return True
     if verdict(r or {}) != "accept":
         F.oracle_failure("reference_prover_accepted", "the real verifier does not accept a proof computed by the model prover (%s): %s" %
                          (case.get("class"), {k: v for k, v in (r or {}).items() if k != "oracles"}), case, variant)
